@@ -332,7 +332,7 @@ def run(ctx):
         g = _sym_pred_matcher(r"Https::eq_authority$", "^%s$" % base, "^%s$" % snap)
         mp = MustPass(f, lambda c: False, guard_fn=lambda bd, s, bb: guard_edges(bd, s, bb, g), name="snapshot authority",
                       ret_guard=lambda t: _ret_is_literal(t, g))
-        ok = mp.holds(hb.name)
+        ok = mp.holds(hb.name) and _ret_guard_final(hb, lambda t: _ret_is_literal(t, g))
         ctx.ob("R-GRD", "has_matching_origins:snapshot", ok, "true only if the snapshot URI has the base's authority", where=hb.loc,
                detail=None if ok else K.why(f, mp, hb.name))
         # deltas: every element of the delta list is tested (loop, all / any / find …); an absent (Err) or empty list has
@@ -444,6 +444,20 @@ def _ret_is_literal(t, matcher):
     rel, a, b, pos = at
     m = matcher(rel, a, b)
     return m is not None and m == pos
+
+
+def _ret_guard_final(b, ret_guard):
+    """A returned value that *is* the guard only counts if it stays the returned value: no other (non-guard) success
+    value may be assigned to the return place after it."""
+    vals = success_values(b)
+    for bi, _, t in vals:
+        if not ret_guard(t):
+            continue
+        later = b.reachable(bi) - {bi}
+        for bj, _, tj in vals:
+            if bj in later and not ret_guard(tj):
+                return False
+    return True
 
 
 def _alts(b, t, depth=0):
@@ -730,7 +744,7 @@ def _forall_deltas(f, b, lit_for, need_update=None):
         out += [x for x in loop_exit_edges if x[0] == bb]
         return out or None
     mp = MustPass(f, lambda c: False, guard_fn=guard_fn, ret_guard=ret_guard, name="every element tested")
-    ok = mp.holds(b.name)
+    ok = mp.holds(b.name) and _ret_guard_final(b, ret_guard)
     if not ok:
         det["true_reachable_without_the_test"] = K.why(f, mp, b.name)
     det["check_blocks"] = sorted(bb for bb, _, _ in sites)
